@@ -140,6 +140,11 @@ class Portfolio(IncrementalTrackingSolver):
         self._close_existing()
 
         formula = self.environment.formula_manager.And(self.assertions)
+        if assumptions:
+            # The solvers are created for this query only: the
+            # assumptions are part of what they are asked
+            formula = self.environment.formula_manager.And(
+                [formula] + list(assumptions))
         _debug("Creating Queue and Pipe")
         signaling_queue: Queue = Queue()
         child_ctrl_pipe, my_ctrl_pipe = Pipe()
